@@ -995,4 +995,88 @@ theorem rowsOf_spec {s : ESpace} (h : EInv s) (sub : List Aid) (hsub : ∀ a ∈
     obtain ⟨ai, hai, rfl⟩ := List.mem_map.mp haq
     exact getPos_of_idx h (hok ai hai)
 
+/-! ### the capacity along a history, and references to `agent_positions` kept by the user -/
+
+theorem setPos_cap {s s' : ESpace} {a : Aid} {p : Pos} (h : setPos s a p = .ok s') : s'.cap = s.cap := by
+  simp only [setPos] at h
+  repeat' split at h
+  all_goals first | (cases h; rfl) | cases h
+
+theorem removeAgent_cap {s s' : ESpace} {a : Aid} (h : removeAgent s a = .ok s') : s'.cap = s.cap := by
+  simp only [removeAgent] at h
+  repeat' split at h
+  all_goals first | (cases h; rfl) | cases h
+
+/-- one call: the capacity stays, or it grows — only in `_add_agent`, only when the array is full -/
+theorem estep_cap (s : ESpace) (op : EOp) :
+    (estep s op).cap = s.cap ∨ (s.cap < (estep s op).cap ∧ (∃ a, op = .new a) ∧ s.cap ≤ s.n) := by
+  cases op with
+  | new a =>
+    simp only [estep]
+    split
+    · exact Or.inl rfl
+    · simp only [addAgent]
+      by_cases hc : s.cap ≤ s.n
+      · right; rw [if_pos hc]; exact ⟨by have := growBy_pos (s.n + 1); omega, ⟨a, rfl⟩, hc⟩
+      · left; simp [hc]
+  | set a p =>
+    left; simp only [estep]
+    cases h : agentSet s a p with
+    | error e => rfl
+    | ok s' =>
+      simp only [agentSet] at h
+      split at h
+      · cases h
+      · exact setPos_cap h
+  | remove a =>
+    left; simp only [estep, agentRemove]
+    by_cases hg : s.gone a = true
+    · simp [hg]
+    · simp only [hg, Bool.false_eq_true, if_false]
+      cases hr : removeAgent s a with
+      | error e => rfl
+      | ok s'' => show s''.cap = s.cap; exact removeAgent_cap hr
+  | iadd a v =>
+    left; simp only [estep]
+    cases h : agentIadd s a v with
+    | error e => rfl
+    | ok s' =>
+      simp only [agentIadd] at h
+      split at h
+      · cases h
+      · simp only [agentSet] at h
+        split at h
+        · cases h
+        · exact setPos_cap h
+  | raw i p =>
+    left; simp only [estep, rawWrite]
+    by_cases hlt : i < s.view <;> simp [hlt]
+
+theorem efold_cap_mono (ops : List EOp) (s : ESpace) : s.cap ≤ (ops.foldl estep s).cap := by
+  induction ops generalizing s with
+  | nil => exact Nat.le_refl _
+  | cons op ops ih =>
+    have h1 : s.cap ≤ (estep s op).cap := by rcases estep_cap s op with h | h <;> omega
+    exact Nat.le_trans h1 (ih _)
+
+theorem hfold_sp (ops : List EOp) (h : HSpace) : (ops.foldl hstep h).sp = ops.foldl estep h.sp := by
+  induction ops generalizing h with
+  | nil => rfl
+  | cons op ops ih => simp only [List.foldl_cons]; rw [ih]; rfl
+
+/-- an array the space has dropped is never touched by the space again -/
+theorem hfold_orph_frozen (ops : List EOp) (h : HSpace) (k : Nat) (hk : k < h.sp.cap) :
+    (ops.foldl hstep h).orph k = h.orph k := by
+  induction ops generalizing h with
+  | nil => rfl
+  | cons op ops ih =>
+    simp only [List.foldl_cons]
+    have hm : h.sp.cap ≤ (estep h.sp op).cap := efold_cap_mono [op] h.sp
+    rw [ih (hstep h op) (by show k < (estep h.sp op).cap; omega)]
+    simp only [hstep, HSpace.advance]
+    split
+    · rfl
+    · have : k ≠ h.sp.cap := by omega
+      simp [upd, this]
+
 end Mesa.Cont
